@@ -81,16 +81,13 @@ Section Statements.
     chain_b g (canon g R) = true -> (forall x, ev x <> Skip) ->
     bisect g t R ev = Some (tr, res) ->
     length tr <= Nat.log2_up (S (length (canon g R))).
-  Proof.
-    intros ev tr res C NS E.
-    exact (bisect_log2 g W R (chain_lin g W R C) ev NS tr res E).
-  Qed.
+  Proof. exact (linear_log2_thm g W R). Qed.
 
   (** The checker applied to the implementation's trace and result: acceptance means the
       recorded run has the stated properties (for the case's truth [bad] / [skip] lists). *)
   Theorem C37_checker_sound : forall bad skip trace r,
     run_ok g t R bad skip trace r = true -> run_holds g R bad skip trace r.
-  Proof. intros bad skip trace r. apply run_ok_sound. Qed.
+  Proof. exact (checker_sound_thm g R). Qed.
 End Statements.
 
 (** F3, the witness: A - B, A - C, D = merge(B, C) above the root; bad = {B, C, D} is
